@@ -111,6 +111,17 @@ inline RCP<const Basic> build(const Recipe &r, int i)
     }
     return zero;
 }
+// build, or leave the path when a constructor refuses the recipe (DomainError / NotImplementedError for e.g. a pole): such a
+// recipe does not denote an expression, so nothing is claimed about it
+inline RCP<const Basic> build_or_skip(const Recipe &r, int i)
+{
+    try {
+        return build(r, i);
+    } catch (SymEngineException &) {
+        verif_assume(false);
+    }
+    return zero;
+}
 // dual number: value and derivative with respect to one symbol
 struct Dual {
     double v, d;
